@@ -1014,7 +1014,56 @@ func mvCommand(prop, mode string, rule string) func(a runArgs) error {
 	}
 }
 
+// exhaustive small-scope check of the derived comparators (a mutated comparison operator cannot hide)
+func cmpsCommand(a runArgs) error {
+	sink := NewSink(a.out, "C02", "Tie.MvccTie", a.seed)
+	sink.perFile = 2000
+	sink.meta.Rule = "EXHAUSTIVE: insert / iterator / exists comparators on all pairs of items from {'', a, ab, b} x bornSn 0..3 x deadSn 0..2, for bytes.Compare and CompareKV (values differing for equal keys); non-trivial = every case"
+	for cmp := 0; cmp < 2; cmp++ {
+		cfg := nitro.DefaultConfig()
+		if cmp == 1 {
+			cfg.SetKeyComparator(nitro.CompareKV)
+		}
+		db := nitro.NewWithConfig(cfg)
+		keys := [][]byte{{}, {'a'}, {'a', 'b'}, {'b'}}
+		mk := func(k []byte, v int) []byte {
+			if cmp == 1 {
+				return nitro.KVToBytes(k, []byte{byte('0' + v)})
+			}
+			return k
+		}
+		for which := 0; which < 3; which++ {
+			for i, ka := range keys {
+				for j, kb := range keys {
+					for ab := uint32(0); ab < 4; ab++ {
+						for bb := uint32(0); bb < 4; bb++ {
+							for ad := uint32(0); ad < 3; ad++ {
+								for bd := uint32(0); bd < 3; bd++ {
+									if which != 2 && (ad != 0 || bd != 0) {
+										continue
+									}
+									if which == 1 && (ab != 0 || bb != 0) {
+										continue
+									}
+									x, y := mk(ka, i), mk(kb, j+1)
+									got := sign(db.VerifCmp(which, x, ab, ad, y, bb, bd))
+									coq := fmt.Sprintf("CCmp %d %d %s %d %d %s %d %d %s", cmp, which, cBytes(x), ab, ad, cBytes(y), bb, bd, cZ(int64(got)))
+									sink.Add(coq, map[string]interface{}{"cmp": cmp, "which": which, "a": x, "aborn": ab, "adead": ad, "b": y, "bborn": bb, "bdead": bd}, fmt.Sprintf("cmp%d-which%d", cmp, which), true)
+								}
+							}
+						}
+					}
+				}
+			}
+		}
+		db.Close()
+	}
+	sink.meta.Extra = map[string]interface{}{"exhaustive": true}
+	return sink.Flush()
+}
+
 func init() {
+	commands["cmps"] = cmpsCommand
 	commands["mvcc"] = mvCommand("C02", "mvcc", "random well-formed histories (10..80 ops, 3..8 keys, 1..3 writers, both comparators, Go-managed and guard-allocator memory): Put/Delete/GetNode/DeleteNode through possibly stale handles/NewSnapshot/Open/Close in random order/GC/Scan/ItemsCount, every open snapshot re-scanned at the end; non-trivial = >=2 snapshots and some key has a dead-but-present version (cross-epoch delete), distinct by Coq term")
 	commands["mvcc-iso"] = mvCommand("C01", "iso", "random well-formed histories as for C02 (both comparators, both memory modes, 1..3 writers, random snapshot close order, real collection workers running) in which EVERY open snapshot is re-scanned after every Put/Delete/DeleteNode/Close/GC/NewSnapshot and compared with the content recorded at its creation; non-trivial = >=2 snapshots and some key has a dead-but-present version")
 	commands["mvcc-backup"] = mvCommand("C05", "backup", "a generated history (both comparators, both memory modes), StoreToDisk of a random open snapshot (often the oldest) with concurrency 1/2/8, the real range pivots fed to the model, LoadFromDisk into a fresh instance with the same configuration; compared: the shard files and recorded checksums byte for byte, the restored content, then a further 15..40-op history on the restored instance against the model started from the restored state; non-trivial = some key has several physical versions and the snapshot holds >=2 items")
